@@ -1,6 +1,7 @@
 /* force-included (CBMC builds only): shrink the PATH_MAX-sized path members embedded in
  * snapraid_split_handle / snapraid_handle / snapraid_disk / snapraid_state so that whole-object
  * updates stay small in the formula. Stated bound: "path buffers of 64 bytes". */
+#include "config.h"   /* feature-test macros (_GNU_SOURCE ...) must be set before the first libc header */
 #include <limits.h>
 #undef PATH_MAX
 #define PATH_MAX 64
